@@ -93,6 +93,50 @@ func runExportCache(p *core.Prog) *core.Result {
 			}
 		})
 	}
+	// the image registered with ctx.put is the image returned: a slice header registered before it is
+	// filled must be filled in place (by index), never re-made by append, or later references to
+	// the same object within the export see the stale (empty) header
+	put, err := p.GojaMethod("objectExportCtx", "put")
+	if err != nil {
+		return res.Fail(err)
+	}
+	for _, fn := range p.Funcs {
+		if !p.InModule(fn) || fn.Blocks == nil {
+			continue
+		}
+		for _, c := range core.CallsIn(fn, put) {
+			args := c.Common().Args
+			if len(args) != 3 {
+				continue
+			}
+			mi, ok := args[2].(*ssa.MakeInterface)
+			if !ok {
+				continue
+			}
+			reg := core.Origin(mi.X)
+			k := 0
+			core.AllInstrs(fn, func(in ssa.Instruction) {
+				r, ok := in.(*ssa.Return)
+				if !ok || len(r.Results) != 1 {
+					return
+				}
+				rmi, ok := r.Results[0].(*ssa.MakeInterface)
+				if !ok {
+					return // the cached image returned as is, nil, ...
+				}
+				if !core.InstrDominates(c.(ssa.Instruction), r) {
+					return
+				}
+				k++
+				key := fmt.Sprintf("%s:returns the registered image#%d", core.FuncName(fn), k)
+				if core.Origin(rmi.X) == reg {
+					res.OK(key, p.Pos(r.Pos()), "the value returned is the value registered with ctx.put")
+				} else {
+					res.Bad(key, p.Pos(r.Pos()), "the exported image returned here is not the one registered with ctx.put before the recursion (e.g. a slice grown by append gets a new header): a second or cyclic reference to the same object within this export receives the stale registered image")
+				}
+			})
+		}
+	}
 	if n < 2 {
 		res.Unknown("floor:table stores", "", fmt.Sprintf("only %d stores of a fresh table into ctx.cache found in put/putTyped (2 confirmed by hand in putTyped)", n))
 	}
